@@ -151,7 +151,10 @@ def canon_of(t, stub, ns_extra=None, opaque_td=False):
         if isinstance(x, StubError):
             raise x
         if isinstance(x, str):
-            x = typing.ForwardRef(x)
+            try:
+                x = typing.ForwardRef(x)
+            except SyntaxError:
+                raise StubError("unresolvable-forward-reference", f"{x!r} is not even an expression")
         if isinstance(x, typing.ForwardRef):
             name = x.__forward_arg__
             if name in tdc:
